@@ -416,3 +416,30 @@ func RowGood(fields []string) ([3]float64, error) {
 	}
 	return res, nil
 }
+
+type lineReader struct{ r *bufio.Reader }
+
+// want:DL.RECURSE one frame per blank line.
+func (l *lineReader) NextBad() (string, error) {
+	line, err := l.r.ReadString('\n')
+	if err != nil {
+		return "", err
+	}
+	if strings.TrimSpace(line) == "" {
+		return l.NextBad()
+	}
+	return line, nil
+}
+
+// silent:DL.RECURSE a loop.
+func (l *lineReader) NextGood() (string, error) {
+	for {
+		line, err := l.r.ReadString('\n')
+		if err != nil {
+			return "", err
+		}
+		if strings.TrimSpace(line) != "" {
+			return line, nil
+		}
+	}
+}
